@@ -126,10 +126,26 @@ static inline std::vector<ScnSpec> scenario_specs(int size) {
         add(K_MAKEOWNER, t, "", 0, 0);
         for (int m : { 1, 2, 4, 8, 16, 32, 63, 5 }) for (int owned = 0; owned < 2; owned++) add(K_NORMALIZE, t, "", m, owned);
     }
+    // dot-segment shapes in every path context: each allocating branch of the dot-segment remover (trailing-slash segment after a final
+    // '..', re-used segment, guard '.' put back) must meet a failing request, on borrowed and on owned paths
+    if (size >= 1) {
+        std::vector<Str> tk = { "", ".", "..", "a" }; if (size >= 3) tk.push_back("c:d");
+        std::vector<Str> rl = path_token_paths(tk, 3, 0), ab = path_token_paths(tk, 3, 1); std::set<Str> seen(shape.begin(), shape.end());
+        auto addn = [&](const Str &t) { if (!ref::is_uri_reference(t) || !seen.insert(t).second) return; for (int m : { 8, 63 }) for (int owned = 0; owned < 2; owned++) add(K_NORMALIZE, t, "", m, owned); };
+        for (auto &q : rl) { addn(q); addn("s:" + q); }
+        for (auto &q : ab) { addn(q); addn("//h" + q); addn("s://1.2.3.4" + q); }
+    }
     std::vector<Str> refs = resolve_refs(size == 0 ? 1 : size >= 3 ? 3 : 2, size >= 3), bases = { "s://h/a/b?q", "s:/a/b", "s:a/b", "s:", "s://u@[::1]:1/", "t://1.2.3.4/x//y", "a/b" };
-    std::vector<Str> rx = { "../../x", "s:./../a", "//g/../b", "?q", "", "#f", ".//b", "/.//b", "a/b/c/d/../../e" }; refs.insert(refs.end(), rx.begin(), rx.end());
+    std::vector<Str> rx = { "../../x", "s:./../a", "//g/../b", "?q", "", "#f", ".//b", "/.//b", "a/b/c/d/../../e",
+        // every allocating step of every branch of 5.2.2: own scheme / own authority with an IP host, dot segments that leave a trailing
+        // slash, results that need the guarding '.' segment
+        "t://1.2.3.4/a/b/..", "t://[::1]/a/b/../..", "s://1.2.3.4/x", "t:/.//x", "t:/a/..//x", "t:/a/b/..", "//1.2.3.4/a/b/..", "//[::2]/a/./b/../..", "//g/a/b/..",
+        "/a/b/..", "/a/b/../..", "/a/..//x", "a/b/..", "a/b/../..", "..//x", "./..//x", "../..//x/y/.." };
+    refs.insert(refs.end(), rx.begin(), rx.end());
+    if (size >= 1) for (auto b2 : { "s:/a", "s:/", "s://h", "s://1.2.3.4:1/a/b/c/d" }) bases.push_back(b2);
     for (auto &r : refs) for (auto &b : bases) for (int o = 0; o < 2; o++) add(K_RESOLVE, r, b, o, 0);
-    std::vector<Str> srcs = { "s://h/a/b/c", "s://h/a", "s://h", "s://h/", "s:/a/b", "s:a/b", "s:", "s://u@[::1]:1/x", "t://1.2.3.4/x", "s://h/a/b?q#f", "s://h//x", "s:/c:d", "s:c:d/e", "s://g/a/../b", "a/b", "s://h/a/b/c/d/e/f" };
+    std::vector<Str> srcs = { "s://h/a/b/c", "s://h/a", "s://h", "s://h/", "s:/a/b", "s:a/b", "s:", "s://u@[::1]:1/x", "t://1.2.3.4/x", "s://h/a/b?q#f", "s://h//x", "s:/c:d", "s:c:d/e", "s://g/a/../b", "a/b", "s://h/a/b/c/d/e/f",
+        "s://h/a//b", "s://h/a/b//", "s:/a//b", "s:/", "s:/a/", "s://h/a/", "s:/a/b/", "s://u@[::1]:1/", "s://u@[::1]:1", "t://1.2.3.4/x//y", "t://1.2.3.4/x//", "s:/a/c:d", "s://h/c:d" };
     for (auto &s : srcs) for (auto &b : bases) for (int m = 0; m < 2; m++) add(K_SHORTEN, s, b, m, 0);
     { Ctx dummy; dummy.nworkers = 1; all_strings(dummy, "&=a%+", size == 0 ? 3 : 4, [&](const Str &q) { add(K_DISSECT, q, "", 1, URI_BR_DONT_TOUCH); if (size >= 1) add(K_DISSECT, q, "", 0, URI_BR_TO_CRLF); }); add(K_DISSECT, "a=%0D%0A&b=+%41&&c", "", 1, URI_BR_TO_LF); }
     const char *K[] = { "", "a", "&=", " \n" }; const char *V[] = { 0, "", "b", "%\r" };
